@@ -252,6 +252,20 @@ def cell_job(depth):
     frontier = collections.deque([()])
     states = 0
     events = [e for e in EVENTS if e[0] != 'setstate']
+    # a state loaded into a LIVE cell (what a data manager does when it refreshes an object in
+    # place, or `a.__setstate__(b.__getstate__())`) replaces whatever the cell held - for every
+    # pair (held value, loaded value) of a small square incl. 0 and big integers
+    L = _length()
+    vals = list(range(-3, 4)) + [10 ** 20, -10 ** 20]
+    for held in vals:
+        for loaded in vals:
+            x = L(held)
+            x.__setstate__(loaded)
+            guards['live_setstate'] += 1
+            if x() != loaded or x.__getstate__() != loaded:
+                rep.add(dict(site='setstate', cls='value', zero=loaded == 0),
+                        dict(kind='setstate', held=held, loaded=loaded),
+                        'Length(%r).__setstate__(%r) -> %r' % (held, loaded, x()))
     while frontier:
         hist = frontier.popleft()
         if rep.full:
